@@ -223,7 +223,17 @@ class Ctx:
         if n <= 0:
             return
         t_start = time.time()
-        for rnd in range(max_rounds):
+        # Hypothesis correlates the examples of one run (prefix reuse, mutation of earlier examples), so the share of
+        # a class drawn early in a composite strategy varies wildly between seeds (1 to 76 of 150 for a class of
+        # probability 0.2).  The budget is therefore spent in independent batches of about 25 examples, each with its own
+        # derived seed; a batch that ends in a violation is followed by the next one with that signature excluded.
+        nb = max(1, int(round(n / 25.0)))
+        per = [n // nb + (1 if i < n % nb else 0) for i in range(nb)]
+        found = 0
+        for rnd in range(nb):
+            if found >= max_rounds:
+                break
+            n = per[rnd]
             last = {}
             phases = [Phase.generate, Phase.shrink] if sub.shrink else [Phase.generate]
 
@@ -258,9 +268,10 @@ class Ctx:
             test = hypothesis.seed(self.derived_seed(sub.name, rnd))(test)
             try:
                 test()
-                break
+                continue
             except Violation:
                 self.add_violation(sub, last["case"], last["records"])
+                found += 1
                 # exclusion by construction: keep searching behind this signature
                 continue
             except Exception as e:
@@ -270,6 +281,7 @@ class Ctx:
                     for rec in last["records"]:
                         rec["detail"] = "[did not reproduce on immediate replay: non-deterministic] " + rec["detail"]
                     self.add_violation(sub, last["case"], last["records"])
+                    found += 1
                     continue
                 raise
         self._health(sub)
